@@ -194,8 +194,11 @@ Definition new_image (img : bytes) : outcome image :=
     Ok (mkImage segs m start a img)
   end.
 
-(* Image.WriteFile writes i.Data *)
-Definition write_file (im : image) : bytes := im_data im.
+(* Image.WriteFile(name): os.WriteFile(name, i.Data) creates or TRUNCATES the
+   destination and writes i.Data.  [old] is what the path held before (None = the
+   path did not exist); the result is the content of the file afterwards.  The old
+   content plays no role: no byte of it survives, whatever its length. *)
+Definition write_file (old : option bytes) (im : image) : bytes := im_data im.
 
 (* FindAttribute: the whole attribute (tag, size, payload) with the given tag *)
 Fixpoint find_attr (fuel : nat) (attr : bytes) (pos tag : Z) : option bytes :=
